@@ -823,6 +823,39 @@ fn mismark(r: &mut Rng, v: &mut Value) {
     }
 }
 
+/// regression corpus: the inputs on which the monitor found mis-marked or malformed values
+/// before the fix: commits (35ff854, f306b49, eea1d01, ade6601, 60de79d, 9703aa4, e1a3340,
+/// f50d52f, 7af2e92, 3374592, f64950a); replayed first by every search that starts at case 0
+const REGRESSION: [&str; 27] = [
+    "¯\"abc\"",
+    "⌊⍆[ℂ5 1.2 ℂ0 1.7]",
+    "⌈⍆[ℂ5 1.2 ℂ0 1.7]",
+    "⌊⍆{[1.2 5] [1.7 0]}",
+    "⁅⍆{[1.2 5] [1.4 0]}",
+    "+∞ ⍆[¯∞ 1]",
+    "+⍆[¯∞ 1] ⍆[∞ ∞]",
+    "+⍆[1_5 2_0] ⍆[1e300_0 1e300_0]",
+    "+1e300 ⍆[1_5 2_0]",
+    "- ⊙¯0 ⍆ [□(↯[2 1][¯∞ ¯0]) □1 □(ℂ3 2) □[□[∞]]]",
+    "- ⊙¯∞ ⇌⍆ [□¯3 □9 □[71 205 77]]",
+    "× ⊙¯1 ⍆{1 [2 3] \"a\"}",
+    "°(÷ ¯1) ⍆ \"é\\\"a\"",
+    "°(÷ ¯2) ⍆ \"bAa\"",
+    "÷ ⊙3 ⇌⍆ (ℂ[¯1 ∞] [2 1e300])",
+    "°(+ NaN) ⍆ (ℂ[¯∞ 241 ¯1] [136 261 0.5])",
+    "÷ ¯0 ⇌⍆ [0.5 149 ¯∞]",
+    "× ¯0 ⍆ [¯1 0 1]",
+    "÷⍆[¯1 1] 1",
+    "÷⍆[¯2 ¯1 1 2] 1",
+    "÷ ⊙1e300 ⇌⍆ (↯[2 4][6 9 3 ¯4 ¯1 7 8 6])",
+    "☇0 ⇌⍆ [1_2 0_5]",
+    "☇0 ⍆ ↯[2 2 2][0 1 0 0 1 0 0 0]",
+    "⍜¯¯ ⇌⍆ (ℂ[¯1 6.25 NaN] [2 ¯2.75 1])",
+    "↥0 ⍆[1 NaN]",
+    "≡≡□ ↯2_3_0 0",
+    "⍚⌵ \"ab\"",
+];
+
 static PROGRESS: std::sync::atomic::AtomicU64 = std::sync::atomic::AtomicU64::new(u64::MAX);
 
 /// a case that does not finish within a few seconds ends the process (the driver resumes after it)
@@ -860,6 +893,15 @@ fn main() {
         "search" => {
             let mut st = Stats::default();
             watchdog();
+            if a2 == 0 {
+                for (k, src) in REGRESSION.iter().enumerate() {
+                    let c = Case { terms: vec![(src.to_string(), vec![format!("regress:{src}")])], args: vec![], header: "# Experimental!\n".into(), bind: false };
+                    monitor_case(&g, &c, 1_000_000 + k as u64, &mut st, false);
+                    let c = Case { terms: vec![(src.to_string(), vec![format!("regress:{src}")])], args: vec![], header: "# Experimental!\n".into(), bind: true };
+                    monitor_case(&g, &c, 2_000_000 + k as u64, &mut st, false);
+                }
+                println!("{{\"regression\":{}}}", REGRESSION.len());
+            }
             for i in a2..a3 {
                 PROGRESS.store(i, std::sync::atomic::Ordering::SeqCst);
                 eprintln!("#{i}");
